@@ -310,6 +310,30 @@ theorem front_hhmmss_engine {u : Uni} (hu : TextUni u) {lowerC : Nat → Str} (h
     simp [Clock.value, Clock.timex, Clock.tail, Clock.m, Clock.s, clockOf, layout1, firstTok, Tok.kind, sColon]
   split <;> simp [e]
 
+/-- `12 am` is 00:00 and `12 pm` is 12:00 — the texts themselves, engine tables, any reference: one value each,
+`T00` / `00:00:00` and `T12` / `12:00:00`. -/
+theorem front_12am_12pm {u : Uni} (hu : TextUni u) {lowerC : Nat → Str} (hl : LowerAscii lowerC) (flags : List Bool)
+    (ltoh : Option (Str × Str)) (si : SuffixInfo) (ref : DT) (hv : ref.date.valid = true) :
+    frontResolveTime RTV.Gen.reTables u lowerC Ev.enFront (enTimeCfg u flags ltoh si) [49, 50, 32, 97, 109] ref =
+      .ok (some [{ timex := [84, 48, 48], type := sTime, value := some [48, 48, 58, 48, 48, 58, 48, 48] }]) ∧
+    frontResolveTime RTV.Gen.reTables u lowerC Ev.enFront (enTimeCfg u flags ltoh si) [49, 50, 32, 112, 109] ref =
+      .ok (some [{ timex := [84, 49, 50], type := sTime, value := some [49, 50, 58, 48, 48, 58, 48, 48] }]) := by
+  have ea : renderT layout3.toks 12 0 0 = [49, 50, 32, 97, 109] := by decide
+  have ep : renderT layout6.toks 12 0 0 = [49, 50, 32, 112, 109] := by decide
+  have ha := front_clock12 retables_ascii_time hu hl (enTimeCfg u flags ltoh si) rfl layout3 (by decide) (Or.inl rfl) 12 0 0
+    (by omega) (by omega) (by omega) (by omega) ref hv
+  have hp := front_clock12 retables_ascii_time hu hl (enTimeCfg u flags ltoh si) rfl layout6 (by decide) (Or.inr rfl) 12 0 0
+    (by omega) (by omega) (by omega) (by omega) ref hv
+  rw [ea] at ha
+  rw [ep] at hp
+  have va : (clockOf layout3.toks 12 0 0).value (12 % 12 + if layout3.pm = true then 12 else 0) =
+      { timex := [84, 48, 48], type := sTime, value := some [48, 48, 58, 48, 48, 58, 48, 48] } := by decide
+  have vp : (clockOf layout6.toks 12 0 0).value (12 % 12 + if layout6.pm = true then 12 else 0) =
+      { timex := [84, 49, 50], type := sTime, value := some [49, 50, 58, 48, 48, 58, 48, 48] } := by decide
+  rw [va] at ha
+  rw [vp] at hp
+  exact ⟨ha, hp⟩
+
 /-- the front end does not depend on the reference date beyond what `match_to_time` copies from it: two references give
 the same values -/
 theorem front_reference_independent {u : Uni} (hu : TextUni u) {lowerC : Nat → Str} (hl : LowerAscii lowerC)
